@@ -1,6 +1,7 @@
 //! One module per property: alphabet, bound, oracle wiring.
 use crate::stats::{Ctx, Report};
 
+pub mod c01;
 pub mod c04;
 pub mod c05;
 
@@ -13,6 +14,7 @@ pub struct Prop {
 
 pub fn all() -> Vec<Prop> {
     vec![
+        Prop { id: "C01", run: c01::run, replay: c01::replay },
         Prop { id: "C04", run: c04::run, replay: c04::replay },
         Prop { id: "C05", run: c05::run, replay: c05::replay },
     ]
